@@ -788,6 +788,8 @@ def _fillgenerator(shape, dtype='float64', fill=0., fillfunc=None,
     """
     if not hasattr(shape, '__len__'):  # probably integer
         shape = (shape,)
+    # numpy integers have a fixed width, arithmetic on them could overflow
+    shape = tuple(int(s) if isinstance(s, np.integer) else s for s in shape)
     if shape[0] == 0:  # empty array, we yield immediately
         yield np.empty(shape, dtype=dtype)
     dtype = np.dtype(dtype)
